@@ -77,6 +77,15 @@ Definition al := approx_list.
             for op in ("ov_lin", "iov", "ov_pc"):
                 cases.append(self.mk(rng, op, a, rng.choice([2, 3, 4])))
             cases.append(self.mk(rng, "ext_lin", a, 2, direction=rng.choice(list(DIRS))))
+        # integer counters beyond 2^53 in an int64 array (byte counters, epoch nanoseconds): the helpers that only *copy* elements
+        # (piecewise-constant oversampling, constant extension) keep every original element as it is — not its nearest double
+        for _ in range(4 if tier == "quick" else 20):
+            L = rng.randint(2, 7)
+            big = [2 ** 53 + 1 + 2 * rng.randint(0, 10 ** 6) for _ in range(L)]     # odd: not representable as doubles
+            for op in ("ov_pc", "ext_const"):
+                cb_ = self.mk(rng, op, big, rng.choice([2, 3, 4]), direction=rng.choice(list(DIRS)) if op == "ext_const" else None)
+                cb_["bigint"] = True
+                cases.append(cb_)
         nrand = 250 if tier == "quick" else 2500
         for _ in range(nrand):
             op = rng.choice(self.OPS)
@@ -145,7 +154,7 @@ Definition al := approx_list.
 
     def run(self, c):
         """the helpers are pure functions: the array handed in is unchanged afterwards and the same call gives the same answer"""
-        a = np.array(c["a"], dtype=float)
+        a = np.array(c["a"], dtype=np.int64 if c.get("bigint") else float)
         held = a.copy()
         r = self.run1(c, held)
         if c["op"] in self.PURE and "exc" not in r:
